@@ -63,6 +63,10 @@ type C15Scn struct {
 	Park       []string `json:"park"`
 	Sticky     int      `json:"stickiness"`
 	BothReady  bool     `json:"both_ready,omitempty"`
+	// SrcBuf > 0: the source is a buffered channel, so events can be waiting in
+	// it when the context is cancelled (only in the both-ready mode: the
+	// forwarder's select between the source and Done is then two-ready)
+	SrcBuf int `json:"src_buf,omitempty"`
 }
 
 type c15 struct{}
@@ -78,7 +82,7 @@ func (c15) EnumSize(tier string) int {
 	return (len(c15Reqs) + len(c15SubModes)) * 3 * 3
 }
 
-var c15AllPark = []string{"resolver", "rtype", "plan.exec.start", "plan.exec.send", "sub.fwd.start", "sub.fwd.select", "prod", "cons", "client"}
+var c15AllPark = []string{"resolver", "rtype", "plan.exec.start", "plan.exec.send", "plan.caller.select", "sub.fwd.start", "sub.fwd.select", "prod", "cons", "client"}
 
 func (p c15) Gen(seed uint64, enum int, tier string) json.RawMessage {
 	s := C15Scn{CancelStep: -1, Sticky: 50, SubMode: "chan"}
@@ -135,7 +139,10 @@ func (p c15) Gen(seed uint64, enum int, tier string) json.RawMessage {
 	if strings.Contains(s.End, "cancel") && r.Chance(60) {
 		s.CancelStep = r.Intn(10 + 12*len(s.Events))
 	}
-	s.BothReady = r.Chance(10)
+	s.BothReady = r.Chance(16)
+	if s.BothReady && r.Chance(60) {
+		s.SrcBuf = 1 + r.Intn(3)
+	}
 	return mustJSON(s)
 }
 
@@ -159,6 +166,7 @@ func (c15) Shrink(scn json.RawMessage) []json.RawMessage {
 	if s.BothReady {
 		t := s
 		t.BothReady = false
+		t.SrcBuf = 0
 		out = append(out, mustJSON(t))
 	}
 	if s.Req != 3 && s.Req < c15OKReqs {
@@ -274,7 +282,7 @@ func (c15) Run(t TestingT, scn json.RawMessage, tape *Tape) *Outcome {
 	pan := Bubble(t, s, func() {
 		w := NewWorld("A")
 		ctx, cancel := context.WithCancel(context.Background())
-		src := make(chan interface{})
+		src := make(chan interface{}, sc.SrcBuf)
 		w.SubSource = func(p graphql.ResolveParams) (interface{}, error) {
 			if cs := Cur(); cs != nil {
 				cs.Gate("sub", "client:subscribe-resolver", "")
@@ -507,6 +515,24 @@ func (c15) Run(t TestingT, scn json.RawMessage, tape *Tape) *Outcome {
 				continue
 			}
 			o.Violate("C15/wrong-result", "result %d differs from executing the selection with event %d as root\n  got: %s\n want: %s", k, k, r, solo[k])
+		}
+		// one result per event, in order: the execution of event k+1 begins only
+		// after result k was handed to the consumer, so when the consumer gets
+		// its k-th result no more than k+1 executions have begun in earlier
+		// steps (a dropped result followed by a delivered later one shows here
+		// even when both are indistinguishable context errors)
+		for k := 0; k < nGot; k++ {
+			gi := gotIdx[k]
+			begun := 0
+			for _, e := range s.Trace {
+				if e.Site == "plan.exec.start" && (e.Kind == "park" || e.Kind == "note") && strings.HasPrefix(e.Task, "sub/") && e.Step < s.Trace[gi].Step {
+					begun++
+				}
+			}
+			if begun > k+1 {
+				o.Violate("C15/result-skipped", "when the consumer received its result number %d, %d executions of the selection had begun: the result of an earlier event was dropped and a later one delivered (results: %v)", k, begun, outs)
+				break
+			}
 		}
 		if idxCancel < 0 && keepsReading && nGot != sent {
 			o.Violate("C15/lost-result", "no cancellation, consumer keeps reading, but %d results for %d forwarded events", nGot, sent)
